@@ -17,7 +17,7 @@ FUNCTIONS_ENCODED = ['pgpy.types.Header.encode_length', 'pgpy.types.Header.lengt
                      'pgpy.packet.types.MPI.to_mpibytes', 'pgpy.packet.types.MPI.byte_length',
                      'pgpy.packet.fields.String2Key.count']
 STUBS = []
-OUTSIDE = ['four-octet timestamp <-> datetime (two C calls: datetime.fromtimestamp / calendar.timegm) - not decided',
+OUTSIDE = ['four-octet timestamp <-> datetime for SYMBOLIC instants (two C calls: datetime.fromtimestamp / calendar.timegm): O9.8 covers boundary instants x zones only',
            'partial-length bodies beyond 3 chunks / exponents above the stated bound',
            'MPI values >= 2**64 under Engine B (Engine A covers wider values)']
 ASSUMPTIONS = ['RFC 4880 4.2 / 3.2 / 3.7.1.3 formulas as written in this file']
@@ -304,9 +304,129 @@ def s2k_count(c: int) -> bool:
     return s.count == want and s._count == c
 
 
+# ------------------------------------------------------------------------------------ O9.8 four-octet times; O9.9 subpacket growth
+from vlib.h import native
+from datetime import datetime, timezone, timedelta
+ZONES = (timezone.utc, timezone(timedelta(hours=2)), timezone(timedelta(hours=-5, minutes=-30)), timezone(timedelta(hours=14)), timezone(timedelta(hours=-12)), None)
+STAMPS = (0, 1, 59, 86399, 86400, 951782400, 1_600_000_000, 2 ** 31 - 1, 2 ** 31, 2 ** 32 - 1)
+
+
+def _t4(n):
+    return bytes([(n // 16777216) % 256, (n // 65536) % 256, (n // 256) % 256, n % 256])
+
+
+def _time_field(field, zone, stamp):
+    """octets a time-bearing field serialises for the instant `stamp` given in `zone`, and the instant it parses back from those octets"""
+    from pgpy.packet.packets import PubKeyV4, LiteralData
+    from pgpy.packet.subpackets.signature import CreationTime, SignatureExpirationTime
+    from pgpy.constants import PubKeyAlgorithm
+    when = datetime.fromtimestamp(stamp, timezone.utc).replace(tzinfo=None) if zone is None else datetime.fromtimestamp(stamp, zone)
+    from pgpy.packet import Packet
+    from pgpy.packet.subpackets import Signature as SigSubPacket
+    if field == 0:
+        pk = PubKeyV4()
+        pk.pkalg = PubKeyAlgorithm.RSAEncryptOrSign
+        pk.keymaterial.n, pk.keymaterial.e = MPI(0x81), MPI(3)
+        pk.created = when
+        pk.update_hlen()
+        raw = bytes(pk.__bytearray__())
+        return raw[3:7], Packet(bytearray(raw)).created               # C6 len 04 | time
+    if field == 1:
+        lit = LiteralData()
+        lit.mtime = when
+        lit.update_hlen()
+        raw = bytes(lit.__bytearray__())
+        return raw[4:8], Packet(bytearray(raw)).mtime                 # CB len 'b' 00 | time
+    sp = CreationTime()
+    sp.created = when
+    sp.update_hlen()
+    raw = bytes(sp.__bytearray__())
+    return raw[2:6], SigSubPacket(bytearray(raw)).created             # 05 02 | time
+
+
+@ob('O9.8', 'four-octet timestamps: key creation time, literal modification time and the signature creation time subpacket each serialise the Unix time of the instant '
+            '(whatever zone it was given in; naive values are UTC) and parse back to that instant',
+    'field in {public key, literal data, creation-time subpacket} x 10 boundary instants in 0..2^32-1 x zone in {UTC, +02:00, -05:30, +14:00, -12:00, naive}, chosen by symbolic index; '
+    'each path concrete and native (the conversions are C calls); process zone UTC-11', cond_timeout={'q': 200, 't': 600})
+def time_codec(field: int, zi: int, si: int) -> bool:
+    """
+    pre: 0 <= field < 3 and 0 <= zi < 6 and 0 <= si < 10
+    post: _
+    """
+    f = z = t = 0
+    for k in range(3):
+        if field == k:
+            f = k
+    for k in range(6):
+        if zi == k:
+            z = k
+    for k in range(10):
+        if si == k:
+            t = k
+    with native():
+        octs, back = _time_field(f, ZONES[z], STAMPS[t])
+        return bytes(octs) == _t4(STAMPS[t]) and back == datetime.fromtimestamp(STAMPS[t], timezone.utc)
+
+
+GROW = (0, 1, 189, 190, 191, 192, 193, 8381, 8382, 8383, 8384, 8385)
+
+
+def _sig_with_policy(n0, hashed_area):
+    """a v4 signature packet with a Policy URI subpacket of n0 octets in the hashed or the unhashed area"""
+    ct = bytes([5, 2]) + _t4(1571577491)
+    issuer = bytes([9, 16]) + bytes.fromhex('0123456789abcdef')
+    pol = rfc_newlen(n0 + 1) + bytes([26]) + b'h' * n0
+    hashed = ct + (pol if hashed_area else b'')
+    unhashed = issuer + (b'' if hashed_area else pol)
+    body = bytes([4, 0, 1, 8]) + bytes([len(hashed) // 256, len(hashed) % 256]) + hashed + bytes([len(unhashed) // 256, len(unhashed) % 256]) + unhashed + b'\x12\x34' + b'\x00\x10\xab\xcd'
+    return bytes([0xC2]) + rfc_newlen(len(body)) + body
+
+
+def _grow_case(n0, n1, hashed_area):
+    from pgpy.packet import Packet
+    pkt = Packet(bytearray(_sig_with_policy(n0, hashed_area)))
+    pkt.subpackets['Policy' if not hashed_area else 'h_Policy'][0].uri = 'h' * n1
+    pkt.update_hlen()
+    raw = bytes(pkt.__bytearray__())
+    # an independent reading of the result: tag, new-format length, body; the areas' own length fields; the subpacket's length field
+    if raw[0] != 0xC2:
+        return False
+    if raw[1] < 192:
+        ln, w = raw[1], 1
+    elif raw[1] < 224:
+        ln, w = (raw[1] - 192) * 256 + raw[2] + 192, 2
+    elif raw[1] == 255:
+        ln, w = int.from_bytes(raw[2:6], 'big'), 5
+    else:
+        return False
+    if ln != len(raw) - 1 - w:
+        return False
+    return raw == _sig_with_policy(n1, hashed_area)
+
+
+@ob('O9.9', 'a subpacket of an already parsed signature whose body is changed so that its length crosses a length-width boundary (either direction): after one update_hlen() '
+            'every length field - packet, area, subpacket - is exact and minimal: the packet equals the one built directly with the new value',
+    'Policy URI in the hashed or the unhashed area; old and new URI lengths by symbolic index from {0,1,189..193,8381..8385}; each path concrete and native', cond_timeout={'q': 280, 't': 600},
+    partitions=[['hashed_area'], ['not hashed_area']])
+def subpacket_grow(i0: int, i1: int, hashed_area: bool) -> bool:
+    """
+    pre: 0 <= i0 < 12 and 0 <= i1 < 12
+    post: _
+    """
+    a = b = 0
+    for k in range(12):
+        if i0 == k:
+            a = k
+        if i1 == k:
+            b = k
+    h = True if hashed_area else False
+    with native():
+        return _grow_case(GROW[a], GROW[b], h)
+
+
 assert rfc_newlen(1723) == rfc_newlen_arith(1723) == b'\xC5\xFB' and rfc_newlen(100000) == b'\xff\x00\x01\x86\xa0'   # RFC 4880 4.2.3
 _GRID = (0, 1, 191, 192, 193, 8383, 8384, 8385, 65535, 65536, 2 ** 24, 2 ** 32 - 1)
-SANITY = (['newlen_roundtrip(%d)' % v for v in _GRID] + ['newfmt_header(2, %d)' % v for v in _GRID] +
+SANITY = (['time_codec(%d, %d, %d)' % (f, z, t) for f in range(3) for z in (1, 5) for t in (0, 7, 9)] + ['subpacket_grow(%d, %d, %s)' % (a, b, h) for a, b in ((4, 5), (5, 4), (9, 10), (10, 9), (0, 11)) for h in (True, False)] + ['newlen_roundtrip(%d)' % v for v in _GRID] + ['newfmt_header(2, %d)' % v for v in _GRID] +
           ['newfmt_header(63, %d)' % v for v in _GRID] + ['subpacket_header(2, True, %d)' % max(v, 1) for v in _GRID] +
           ['newlen_decode(0xC5, 0xFB, 0, 0, 0)', 'newlen_decode(0xFF, 0, 1, 0x86, 0xA0)', 'partial_lengths(2, 1, 0, 2, 7)',
            'partial_lengths(1, 3, 0, 0, 0)', 'partial_big(0, 0, 5)', 'partial_big(16, 2, 5)', 'partial_big(17, 1, 255)', 'oldfmt_header(6, 0, 255)', 'oldfmt_header(6, 1, 65535)', 'oldfmt_header(2, 2, 2 ** 32 - 1)',
